@@ -516,7 +516,6 @@ var ruleZipWalk = &core.Rule{ID: "R19.5", Min: 5,
 		}
 	}}
 
-
 func shortMime(m string) string {
 	if i := strings.LastIndexByte(m, '.'); i >= 0 && strings.HasPrefix(m, "application/vnd.openxml") {
 		return m[i+1:]
